@@ -24,6 +24,7 @@ type DiffConfig struct {
 	NonTrivial func(r *mon.Result, cs *mon.Case) bool
 	SkipNotBuilt bool // a variant pigeon rejects / that does not compile is counted, not reported
 	Sig      func(g *gast.Grammar, variant []string, d diff) []string
+	OnUnit   func(u *Unit) // called for every built unit (e.g. inspection of the emitted source)
 }
 
 // DiffCheck runs the differential pipeline.
@@ -83,6 +84,9 @@ func (c *Ctx) diffChunk(cfg *DiffConfig, lo, hi int) {
 		pkgBase += len(sub) * len(vs)
 		builts = append(builts, bt)
 		for _, u := range bt.Units {
+			if cfg.OnUnit != nil && u.OK {
+				cfg.OnUnit(u)
+			}
 			gi := idxs[u.GIdx]
 			vi := -1
 			for k, f := range vs {
